@@ -17,6 +17,15 @@ class OracleMixin:
     def on_new_id(self, pr, tid):
         if tid < 0:
             self.violate("C11.dense", f"negative task id {tid}")
+        if pr.size_changed:
+            # admission of a new task after pool_size was assigned
+            if self.loop.vf_iteration <= pr.size_set_iter + 1:
+                # room handed to a waiting spawner before the assignment materialises one iteration later
+                self.sit["C15.admission_in_grace"] += 1
+            elif pr.A >= pr.cap():
+                self.violate("C15.no_admission_above", f"task {tid} admitted to pool {pr.idx} (size now {pr.size}) while {pr.A} admitted tasks have not finished")
+            else:
+                self.sit["C15.begin_after_assign"] += 1
 
     def elem_index(self, req, args, kwargs):
         try:
@@ -248,6 +257,18 @@ class OracleMixin:
             self.sit["C01.is_full." + ("full" if want else "room")] += 1
         elif pr.cb_in_progress:
             self.sit["idle_mid_callback"] += 1
+        # invocations waiting for room although there is room (pool_size assignments)
+        if pr.size_track and pr.cb_in_progress == 0:
+            demand = 0
+            for rq in pr.reqs:
+                if rq.accepted and rq.cancelled_at is None and rq.kind in ("apply", "start", "probe") and rq.meta is not None and not rq.meta.done():
+                    demand += 1
+            if demand and pr.L < pr.cap():
+                self.violate("C15.grow_wakes", f"idle: {demand} spawner(s) still have invocations waiting for room, but only {pr.L} run in a pool of size {pr.size}")
+            if demand:
+                self.sit["C15.idle_with_waiting"] += 1
+            if pr.size_changed:
+                self.sit["C15.idle_after_assign"] += 1
         # map work conservation
         if pr.cb_in_progress == 0 and pr.L < pr.cap() and not pr.size_changed:
             for rq in pr.live_groups.values():
